@@ -96,7 +96,6 @@ package main
 //@   static_only C24
 //@   guarded [C24.create_partitions_needs_admin] handleCreatePartitions(_, _, _, _) by allowAdmin(_, _) is true
 //@ func (h *handler) Handle$8
-//@   static_only C24
 //@   guarded_where [C24.delete_groups_list_holds_only_permitted_groups] append(@allowed, $g) by allowGroup(_, _, $g, "group_admin") is true
 //@ func (h *handler) Handle$2
 //@   static_only C24
